@@ -45,9 +45,13 @@ class Cache(Callback):
 
     def _start(self, dsk):
         self.durations = dict()
+        from dask._task_spec import DataNode
+
         overlap = set(dsk) & set(self.cache.data)
         for key in overlap:
-            dsk[key] = self.cache.data[key]
+            # Cached results are plain data. Inserted as they are, a result that
+            # is a tuple, a list or equal to a key would be read as a task
+            dsk[key] = DataNode(key, self.cache.data[key])
 
     def _pretask(self, key, dsk, state):
         self.starttimes[key] = default_timer()
